@@ -313,6 +313,8 @@ def run_real(sc, line_preempt=None, wall_s=20.0, max_steps=6000):
     # out: the default applies) | ticks (explicit, 0 included: the default must NOT apply); "rc" stays the EFFECTIVE value
     if "rc_arg" in sc:
         rf["reconnect"] = None if sc["rc_arg"] == "none" else simsched.secs(sc["rc_arg"])
+    if sc.get("skip"):
+        rf["skip_utf8_validation"] = True
     import websocket._app as _A
     saved_rc = _A.RECONNECT
     alive = []
